@@ -75,19 +75,19 @@ var keyHex = []string{
 const GenesisDiff = 100
 
 type Tree struct {
-	Spec    []NodeSpec
-	Blocks  []*types.Block
-	Num     []uint64
-	TrueTd  []*big.Int // sum of difficulties from genesis, from the spec alone
-	TxsOf   [][]common.Hash
-	AllTxs  []common.Hash // in order of first appearance; id = index+1
-	Roots   []common.Hash // distinct state roots in order of first appearance; id = index+1
-	Ids     *Ids
-	Gspec   *core.Genesis
-	Config  *params.ChainConfig
-	Engine  *DiffEngine
-	MaxNum  uint64
-	ByHash  map[common.Hash]int
+	Spec   []NodeSpec
+	Blocks []*types.Block
+	Num    []uint64
+	TrueTd []*big.Int // sum of difficulties from genesis, from the spec alone
+	TxsOf  [][]common.Hash
+	AllTxs []common.Hash // in order of first appearance; id = index+1
+	Roots  []common.Hash // distinct state roots in order of first appearance; id = index+1
+	Ids    *Ids
+	Gspec  *core.Genesis
+	Config *params.ChainConfig
+	Engine *DiffEngine
+	MaxNum uint64
+	ByHash map[common.Hash]int
 }
 
 func (t *Tree) Id(i int) int { return i + 1 } // model id of node i (0 is the zero hash)
